@@ -40,11 +40,11 @@ type call struct {
 }
 
 type obs struct {
-	mu    hkit.Mutex
-	calls []*call
+	mu             hkit.Mutex
+	calls          []*call
 	wakeViolations []string
-	stopReturned bool
-	ctlDone int
+	stopReturned   bool
+	ctlDone        int
 }
 
 func site() world.SiteDef {
@@ -367,7 +367,7 @@ func main() {
 		"states": total.States, "transitions": total.Transitions, "traces_validated_against_impl": total.Executions,
 		"samples": []any{total.Sample}, "exhaustive": total.Exhaustive, "scenarios": len(ss), "distinct_outcomes": len(outcomes),
 		"per_scenario": per,
-		"explanation": "real pause manager and the four real stage workers (full pipeline on a fake site) with 1-2 controller threads running every Pause/Resume script up to length 2 each (3 for a single controller), optionally followed by the real stop sequence; every schedule with at most P deviations from the canonical scheduler and all select outcomes",
+		"explanation":  "real pause manager and the four real stage workers (full pipeline on a fake site) with 1-2 controller threads running every Pause/Resume script up to length 2 each (3 for a single controller), optionally followed by the real stop sequence; every schedule with at most P deviations from the canonical scheduler and all select outcomes",
 	}, []string{
 		"workers subscribe at start-up; Subscribe concurrent with Pause is not in the alphabet",
 		"sync.Map.Range of the subscriber table iterates in insertion order",
